@@ -85,6 +85,8 @@ type Server struct {
 
 	DiskPct int
 	FSRO    bool
+
+	lastWorldChange time.Duration // last scenario-driven change of this server (not by mysync)
 }
 
 type slaveEvent struct{ schema, name, definer string }
